@@ -166,14 +166,16 @@ class Space:
             d["elements"] = [self.describe(i, bits, depth - 1, _path + (int(idx),)) for i in self.resolve(tang or [], bits)]
         return d
 
-    def values_of_symbol_row(self, sym_index, bits, depth=2):
+    def values_of_symbol_row(self, sym_index, bits, depth=2, resolve_top=True):
         r = self.rows.get(int(sym_index))
         if r is None or int(r.get("symbol_or_state", 0)) != 0:
             if r is not None:                      # a literal operand is a bare State row
                 return [self.describe(i, bits, depth) for i in self.resolve([sym_index], bits)]
             return []
         states = [int(i) for i in _jl(r.get("states"), []) if int(i) != -1]
-        return [self.describe(i, bits, depth) for i in self.resolve(states, bits)]
+        if resolve_top:
+            states = self.resolve(states, bits)
+        return [self.describe(i, bits, depth) for i in states]
 
     # ---- queries ----------------------------------------------------------------------------------------------
     def contexts_of_stmt(self, stmt_id):
@@ -191,7 +193,9 @@ class Space:
         return self.rows[di].get("name"), self.values_of_symbol_row(di, st["out_state_bits"], depth)
 
     def used(self, ctx, stmt_id, name, depth=2):
-        """abstract values of the used symbol `name` at the statement, resolved with in_state_bits; None if absent."""
+        """abstract values of the used symbol `name` at the statement; None if absent.  The states of a used Symbol row
+        are the statement's in-states (complete_in_states_and_check_continue_flag stores the already resolved and fused
+        set there), so they are taken as they are; members are resolved with in_state_bits."""
         st = self.contexts.get(ctx, {}).get(stmt_id)
         if st is None:
             return None
@@ -199,7 +203,7 @@ class Space:
             if ui is None or ui < 0 or not self.is_symbol(ui):
                 continue
             if self.rows[ui].get("name") == name:
-                return self.values_of_symbol_row(ui, st["in_state_bits"], depth)
+                return self.values_of_symbol_row(ui, st["in_state_bits"], depth, resolve_top=False)
         return None
 
 
@@ -656,6 +660,8 @@ class Monitors:
         lian_src = os.path.join(os.path.dirname(os.path.dirname(os.path.abspath(util.__file__))), "")
 
         def hook(event, args):
+            if mon._in_lian:           # events raised by the monitor's own ast.parse
+                return
             if event == "compile":
                 try:
                     src, fname = args[0], args[1]
@@ -680,7 +686,11 @@ class Monitors:
                 if isinstance(cur, dict) and getattr(code, "co_filename", None) in ("", "<string>") and not cur["entered"]:
                     cur["entered"] = True
                     mon.execs += 1
-                    op, bits = predict_bits(cur["text"])
+                    mon._in_lian = 1
+                    try:
+                        op, bits = predict_bits(cur["text"])
+                    finally:
+                        mon._in_lian = 0
                     cur["predicted_bits"] = bits
                     if bits > BIG_BITS:
                         ev = {"event": "big-fold-entered", "operator": op, "bits": bits, "text": cur["text"][:300]}
